@@ -825,6 +825,10 @@ class ConditionBinaryOp(ConditionLike):
         and just return the non-null condition."""
         return null_condition_binary_check(*conditions) or super().__new__(cls)
 
+    def __getnewargs__(self):
+        # `__new__` needs the operands (used when copying / pickling)
+        return tuple(self.children)
+
     def __init__(self, *conditions):
         if null_condition_binary_check(*conditions) is not None:
             # `__new__` returned an existing operand; it must not be re-initialised.
